@@ -245,8 +245,21 @@ def run(M, rep, tier, only=None):
         rep.bad(R8, "H5Group", "required mechanism not found")
     else:
         cached = ("attr", ("self",), "_group")
+        from .common import private_helper
+        rname = "_create_h5obj"
+        if rname not in hg.methods and "create_link" in hg.methods:
+            # renamed: the private member in whose frame the group is looked up / created in its parent
+            cands = set()
+            for p in explore(rcfg, hg.methods["create_link"], "H5Group", None, 4000):
+                for e in p.events:
+                    if e.kind == "raw" and e.op.split(".")[-1] in ("require_group", "create_group", "__getitem__", "__contains__") and e.stack:
+                        nm = e.stack[-1].split(".")[-1]
+                        if e.stack[-1].split(":")[-1].startswith("H5Group._") and not nm.startswith("__"):
+                            cands.add(nm)
+            if len(cands) == 1:
+                rname = cands.pop()
         for name, f in sorted(hg.methods.items()):
-            if name.startswith("__") or name in ("_create_h5obj",):
+            if name.startswith("__") or name == rname:
                 continue
             try:
                 paths = explore(rcfg, f, "H5Group", None, 4000)
@@ -254,7 +267,7 @@ def run(M, rep, tier, only=None):
                 if type(e).__name__ != "Budget":
                     raise
                 continue
-            resolves = any(any(q.endswith("H5Group._create_h5obj") for q in e.stack) for p in paths for e in p.events)
+            resolves = any(any(q.endswith("H5Group." + rname) for q in e.stack) for p in paths for e in p.events)
             if not resolves:
                 continue
             bad = None
